@@ -37,5 +37,11 @@ func init() {
 	register("C10", "", ruleGate, ruleCallers(nil), ruleGoSites, r6(scHTTP, 40), detectors[0])
 	register("C09", "", detectors...)
 	register("C17", "", detectors[0])
+	batch := []ruleFn{ruleResultIndex, ruleClosureIsolation, ruleRespondOnce, ruleSemaphorePairing(scHTTP), ruleGoSites}
+	register("C08", "", append(batch, ruleAMR)...)
+	register("C07", "", ruleRespondOnce, ruleResultIndex, ruleSemaphorePairing(scHTTP), ruleGoSites)
+	clean := ruleExecuteThenClean("pebbles.(*Gateway).queryHandler$1", "pebbles.(*Gateway).newSubscriptionEntry$1")
+	register("C01", "", clean, rulePrepareResponse)
+	register("C17", "", clean, rulePrepareResponse)
 	register("X6", "debug: R6 over whole module", ruleErr(errScope{label: "all", pkgs: []string{"pebbles", "common", "executor", "format", "gqlerrors", "introspection", "merger", "planner", "queryer", "requests"}}))
 }
